@@ -486,6 +486,9 @@ class DeepCopyMethod(MethodDescriptor):
         if self.__spec_class__.do_not_copy:
             return self
         new = self.__class__.__new__(self.__class__)
+        if memo is not None:
+            # References back to this instance resolve to the copy.
+            memo[id(self)] = new
         for attr, value in self.__dict__.items():
             if inspect.ismethod(value) and value.__self__ is self:
                 # Methods of this instance are re-bound to the copy.
